@@ -201,6 +201,8 @@ def rule_r1(chk, prog, cg, zone):
 NODE_PARAM_NAMES = {'node', 'cmd', 'expr', 'sort', 'term', 'n', 'e',
                     'linput', 'symbol'}
 LIST_PARAM_NAMES = {'exprs', 'input_', 'vars'}
+NON_SEXPR_MODULES = {'tmpfiles', 'checker', 'cli', 'options', '__main__',
+                     'progress', 'debug_utils', 'argparsemod', 'version'}
 
 
 class Typer:
@@ -212,11 +214,15 @@ class Typer:
         self.node = set()
         self.lists = set()
         ps = params_of(f)
-        for p in ps:
-            if p in NODE_PARAM_NAMES:
-                self.node.add(p)
-            if p in LIST_PARAM_NAMES:
-                self.lists.add(p)
+        # parameters are typed by their conventional names, but only in the
+        # modules that handle s-expressions ("cmd" in tmpfiles/checker/cli
+        # is the command line, not a command node)
+        if m.name not in NON_SEXPR_MODULES:
+            for p in ps:
+                if p in NODE_PARAM_NAMES:
+                    self.node.add(p)
+                if p in LIST_PARAM_NAMES:
+                    self.lists.add(p)
         changed = True
         while changed:
             changed = False
@@ -410,6 +416,27 @@ def rule_r2(chk, prog, cg, zone):
                 continue
             facts = facts_at(f, nd)
             ok = (f'{v} is None', False) in facts
+            if not ok:
+                # every definition reaching the use is a non-None value
+                from ..cfg import reaching_defs, expr_owner_node
+                cfg_ = cfg_of(f)
+                on = expr_owner_node(cfg_, nd)
+                ds = (reaching_defs(cfg_, params_of(f)).get(on) or {}).get(
+                    v) or ()
+                def nonnull(d):
+                    if d == 'param':
+                        return False
+                    a = d.ast
+                    if isinstance(a, ast.Assign) and len(a.targets) == 1 \
+                            and isinstance(a.targets[0], ast.Name):
+                        val = a.value
+                        return not (isinstance(val, ast.Constant)
+                                    and val.value is None) and isinstance(
+                                        val, (ast.List, ast.Tuple, ast.Dict,
+                                              ast.Subscript, ast.Call,
+                                              ast.ListComp, ast.JoinedStr))
+                    return False
+                ok = bool(ds) and all(nonnull(d) for d in ds)
             nobl += 1
             chk.check('C04.R2', where, f'{unparse(nd)} with {v} possibly '
                       'None', ok,
@@ -617,12 +644,31 @@ def rule_r3(chk, prog):
                       'main() can end without returning a status (None '
                       'is turned into 0 by sys.exit)', loc=mm.loc(f),
                       nontrivial=True)
-    # handlers print one line
+    # handlers print one line (on every path through the handler)
+    def counts(stmts):
+        """Possible numbers of print() calls along the paths of a block."""
+        res = {0}
+        for st in stmts:
+            if isinstance(st, ast.If):
+                here = counts(st.body) | counts(st.orelse)
+                tst = len([c for c in calls_in(st.test)
+                           if call_name(c) == 'print'])
+                here = {x + tst for x in here}
+            elif isinstance(st, (ast.For, ast.While, ast.Try, ast.With)):
+                inner = [c for c in calls_in(st) if call_name(c) == 'print']
+                here = {0} if not inner else {0, 1, 2}
+            else:
+                here = {len([c for c in calls_in(st)
+                             if call_name(c) == 'print'])}
+            res = {a + b for a in res for b in here}
+        return res
+
     for h in t.handlers:
-        prints = [c for c in calls_in(h) if call_name(c) == 'print']
+        cs = counts(h.body)
         chk.check('C04.R3', where, f'handler {unparse(h.type)} prints one '
-                  'line', len(prints) == 1, 'handler does not print exactly '
-                  'one diagnostic', loc=mm.loc(h))
+                  'line', cs == {1}, 'handler does not print exactly one '
+                  f'diagnostic on every path (possible counts {sorted(cs)})',
+                  loc=mm.loc(h))
     # sys.exit sites in the package
     n = 0
     for m in prog.pkg_modules():
@@ -645,7 +691,7 @@ def rule_r3(chk, prog):
                           'sys.exit with status 0 outside the documented '
                           '--parser-test exit: a failed run reports success',
                           loc=m.loc(c), nontrivial=True)
-    chk.floor('C04.R3', 'sys.exit sites', n, 3)
+    chk.floor('C04.R3', 'sys.exit sites', n, 1)
     # usage exception: raised with a one-line message
     cli = prog.mod('cli')
     nr = 0
@@ -654,16 +700,42 @@ def rule_r3(chk, prog):
                 r.exc, ast.Call) and call_name(r.exc) == 'DDSMTException':
             nr += 1
             a = r.exc.args[0] if r.exc.args else None
-            lit = None
-            if isinstance(a, ast.Constant):
-                lit = a.value
-            elif isinstance(a, ast.Call) and isinstance(
-                    a.func, ast.Attribute) and isinstance(
-                        a.func.value, ast.Constant):
-                lit = a.func.value.value
-            ok = isinstance(lit, str) and '\n' not in lit
+            fn_ = _fn(r)
+            if a is not None and fn_ is not None:
+                from ..astutil import expand_locals
+                a = expand_locals(fn_, a)
+            lits = []
+            known = a is not None
+
+            def parts(e):
+                nonlocal known
+                if isinstance(e, ast.Constant) and isinstance(e.value, str):
+                    lits.append(e.value)
+                elif isinstance(e, ast.JoinedStr):
+                    for v in e.values:
+                        if isinstance(v, ast.Constant):
+                            lits.append(str(v.value))
+                elif isinstance(e, ast.Call) and isinstance(
+                        e.func, ast.Attribute) and e.func.attr == 'format':
+                    parts(e.func.value)
+                elif isinstance(e, ast.BinOp) and isinstance(
+                        e.op, (ast.Add, ast.Mod)):
+                    parts(e.left)
+                    if isinstance(e.op, ast.Add):
+                        parts(e.right)
+                else:
+                    known = False
+
+            if a is not None:
+                parts(a)
+            ok = a is not None and not any('\n' in x for x in lits)
+            if ok and not known:
+                chk.info('C04.R3', 'usage diagnostic built from a value '
+                         f'this rule does not resolve: {unparse(r)[:60]}',
+                         loc=cli.loc(r))
             chk.check('C04.R3', 'cli', r, ok, 'usage diagnostic is not a '
-                      'one-line literal', loc=cli.loc(r))
+                      'one-line message (no message, or a literal part '
+                      'contains a line break)', loc=cli.loc(r))
     chk.floor('C04.R3', 'raise DDSMTException sites', nr, 4)
 
 
@@ -764,6 +836,16 @@ def rule_r5(chk, prog):
     for c in calls_in(cb):
         if call_name(c) == 'shutil.copy':
             consumed.append(unparse(c.args[0]))
+        elif isinstance(c.func, ast.Name) and c.func.id in t.funcs:
+            # copying delegated to a helper of the module (one level)
+            h = t.funcs[c.func.id]
+            try:
+                b = bind_args(c, h)
+            except AnalysisError:
+                continue
+            for hc in calls_in(h):
+                if call_name(hc) == 'shutil.copy' and hc.args:
+                    consumed.append(unparse(subst(hc.args[0], b)))
     main = cli.func('ddsmt_main')
     for c in calls_in(main):
         if call_name(c) == 'open' and c.args:
